@@ -64,6 +64,7 @@ def cells(tier):
              ("c3", {"kind": "const", "value": 3}), ("l10", {"kind": "linear", "slope": 1, "intercept": 0}),
              ("l21", {"kind": "linear", "slope": 2, "intercept": 1}), ("l13", {"kind": "linear", "slope": 1, "intercept": 3}),
              ("l30", {"kind": "linear", "slope": 3, "intercept": 0}),
+             ("g21", {"kind": "general", "as": {"kind": "linear", "slope": 2, "intercept": 1}}),
              ("p100", {"kind": "poly", "coefficients": [1, 0, 0]}), ("p123", {"kind": "poly", "coefficients": [1, 2, 3]})]
     for ctag, cost in costs:
         for tag, tasks in (("f", [fam.fx("t0", 3)]), ("v", [fam.vr("t0", 1, 3)]),
